@@ -555,6 +555,14 @@ pub fn record(n: u64) {
             emit_big!(out, "hdict_u16_u8", k, 3, HashMap<u16, u8>, (0..k).map(|i| (i as u16, i as u8)).collect());
         }
     }
+    // long strings of multi-byte characters behind 0..3 one-byte characters (whatever unit the code copies or validates in, some
+    // character straddles its border)
+    for (ch, reps) in [('\u{e9}', 1000usize), ('\u{20ac}', 700), ('\u{1f600}', 600), ('\u{e9}', 5000)] {
+        for lead in 0..4usize {
+            let s: String = "x".repeat(lead) + &ch.to_string().repeat(reps);
+            emit_big!(out, "string", s.len(), 1, String, s);
+        }
+    }
     let _ = out.flush();
     // strided sweep of the variable-width integers below 2^30 (both signs), stride derived from n
     let stride = ((1u64 << 30) / (n / 4).max(1)).max(1);
